@@ -49,6 +49,10 @@ def instrument_sources():
     # schedule point 3: after the cache insert
     body = sub_once(body, r"^(\s*)(am\.cacheMu\.Unlock\(\))", r'\1\2\n\1verifPoint("v-after-insert")', "cache insert unlock in VerifyToken", rel)
     text = text[:a] + body + text[b:]
+    # generic points, derived from the CURRENT source: VerifyToken and every function of the package
+    # reachable from it that touches the cache get a point after every RUnlock/Unlock and before every
+    # Lock/RLock of cacheMu (the exploration cases park there; model-driven cases run through)
+    text, gpoints = insert_generic_points(text, rel)
     # schedule point of the cache janitor: after it read the clock (and whatever it does before), right before its WRITE lock
     a, b = func_span(text, r"^func \(am \*AuthManager\) cleanupExpiredCache\(", rel)
     body = sub_once(text[a:b], r"^(\s*)(am\.cacheMu\.Lock\(\))", r'\1verifPoint("j-before-lock")\n\1\2', "write lock in cleanupExpiredCache", rel)
@@ -71,6 +75,53 @@ def instrument_sources():
     text = text.replace("time.Now()", "verifNow()")
     out[rel] = vlib.gen_file(os.path.join("C21", rel), text)
     return out
+
+
+GENERIC_POINTS = {}
+
+
+def insert_generic_points(text, rel):
+    funcs = {f["name"]: f for f in vlib.goast("funcs", "internal/auth") if f["file"] == rel or f["pkg"] == "auth"}
+    if "VerifyToken" not in funcs:
+        raise vlib.TieBroken("VerifyToken not found by go/ast")
+    reach, todo = set(), ["VerifyToken"]
+    while todo:
+        n = todo.pop()
+        if n in reach or n not in funcs:
+            continue
+        reach.add(n)
+        todo += [c for c in (funcs[n]["calls"] or []) if c in funcs]
+    points = []
+    for name in sorted(reach):
+        f = funcs[name]
+        if f["file"] != rel:
+            continue
+        m = re.search(r"^func (\([^)]*\) )?%s\(" % re.escape(name), text, re.M)
+        if not m:
+            continue
+        end = text.find("\nfunc ", m.end())
+        end = end if end >= 0 else len(text)
+        body = text[m.start():end]
+        if "am.cache" not in body and "cacheMu" not in body:
+            continue
+        cnt = [0]
+
+        def after(mm):
+            cnt[0] += 1
+            points.append("g:%s:%d" % (name, cnt[0]))
+            return '%s%s\n%sverifPoint("g:%s:%d")' % (mm.group(1), mm.group(2), mm.group(1), name, cnt[0])
+
+        def before(mm):
+            cnt[0] += 1
+            points.append("g:%s:%d" % (name, cnt[0]))
+            return '%sverifPoint("g:%s:%d")\n%s%s' % (mm.group(1), name, cnt[0], mm.group(1), mm.group(2))
+        body = re.sub(r"^([ \t]*)(am\.cacheMu\.(?:RUnlock|Unlock)\(\))[ \t]*$", after, body, flags=re.M)
+        body = re.sub(r"^([ \t]*)(am\.cacheMu\.(?:RLock|Lock)\(\))[ \t]*$", before, body, flags=re.M)
+        text = text[:m.start()] + body + text[end:]
+    if not points:
+        raise vlib.TieBroken("no cacheMu lock boundary found in VerifyToken or its callees")
+    GENERIC_POINTS["points"] = points
+    return text, points
 
 
 def run_impl(cases, tag):
@@ -447,7 +498,7 @@ def gen_cases(params, rng, tier):
                           ([mut("setexp", 1, exp=T0 + 30 * SEC), ver(1), ver(1)], (11 * SEC, 20 * SEC)),
                           ([mut("revoke", 1), ver(1), ver(1)], (11 * SEC,))):
             add("D:expiry:%s" % mode, mode, ttl, 100, exp_tok, th,
-                schedules(params, mode, ttl, 100, exp_tok, th, ticks=ticks, rng=rng, sample=400 if big else 60, probes=False))
+                schedules(params, mode, ttl, 100, exp_tok, th, ticks=ticks, rng=rng, sample=400 if big else 45, probes=False))
     short = 5 * SEC
     add("D:short-ttl", "direct", short, 100, exp_tok, [ver(1), ver(1), ver(1)],
         schedules(params, "direct", short, 100, exp_tok, [ver(1), ver(1), ver(1)], ticks=(4 * SEC, 1 * SEC, 1, 6 * SEC),
@@ -473,9 +524,9 @@ def gen_cases(params, rng, tier):
     # H: more threads (sampled): three verifications; two mutations
     for mode in ("direct", "cluster"):
         th = [mut("revoke", 1), ver(1), ver(1), ver(1)]
-        add("H:3v:%s" % mode, mode, ttl, 100, one, th, schedules(params, mode, ttl, 100, one, th, rng=rng, sample=3000 if big else 120))
+        add("H:3v:%s" % mode, mode, ttl, 100, one, th, schedules(params, mode, ttl, 100, one, th, rng=rng, sample=3000 if big else 80))
         th = [mut("setperms", 1, perms="write"), mut("revoke", 1), ver(1), ver(1)]
-        add("H:2m:%s" % mode, mode, ttl, 100, one, th, schedules(params, mode, ttl, 100, one, th, rng=rng, sample=3000 if big else 120))
+        add("H:2m:%s" % mode, mode, ttl, 100, one, th, schedules(params, mode, ttl, 100, one, th, rng=rng, sample=3000 if big else 80))
     # L: legacy rows (token_prefix '__legacy__', sha256 hash) - selected by every query, matched by hash
     for mode in ("direct", "cluster"):
         leg = [tok("old", 1, legacy=True)]
@@ -510,6 +561,23 @@ def gen_cases(params, rng, tier):
             for mid in interleavings([{"t": 2}] * 2, [{"t": 3}] * 3):
                 for extra_tick in ((), ({"tick": ttl // 2},)):
                     cases.append(mk_case(len(cases), "N:janitor:%s:%s" % (kind, mode), mode, ttl, 100, two, th, pre + list(extra_tick) + mid + post))
+    # X: exploration of EVERY lock boundary of VerifyToken and its callees (points derived from the
+    #     current source): a warm-up verification fills the cache, the clock is put into each quarter
+    #     of the entry's lifetime (and past it), a second verification is parked at its k-th point,
+    #     the mutation runs to completion, the verification resumes, then the old value is verified
+    #     again.  The model has no steps for these points: judged by the oracle only.
+    for mode in ("direct", "cluster"):
+        for kind in ("revoke", "delete", "rotate"):
+            m = mut(kind, 1, val=1000) if kind == "rotate" else mut(kind, 1)
+            th = [ver(1), ver(1), m, ver(1)]
+            for quarter, dt in (("fresh", ttl // 8), ("mid", ttl // 2), ("last", ttl - ttl // 8), ("expired", ttl + 1)):
+                for k in range(0, 9):
+                    sched = [{"t": 0, "run": True}, {"tick": dt}] + [{"t": 1}] * k + [{"t": 2, "run": True}, {"t": 1, "run": True},
+                                                                                        {"t": 2, "run": True}, {"t": 3, "run": True}]
+                    c = mk_case(len(cases), "X:explore:%s:%s:%s" % (quarter, kind, mode), mode, ttl, 100, one, th, sched)
+                    c["generic"] = True
+                    c["oracle_only"] = True
+                    cases.append(c)
     return cases
 
 
@@ -621,7 +689,7 @@ def case_to_coq(c, scen_index, perm):
     if len(c["threads"]) > 32 or len(ticks) > 32 or len(c["sched"]) > 190:
         raise vlib.InfraError("case too large for the transport encoding")
     sd = [e["t"] if "t" in e else 32 + ticks.index(e["tick"]) for e in c["sched"]]
-    od = [STEP_DIGIT.get(s, 15) for s in c["obs"]["steps"]]
+    od = [10 if s.startswith("at:g:") else STEP_DIGIT.get(s, 15) for s in c["obs"]["steps"]]
     rd = []
     for r in c["obs"]["results"]:
         if not r["finished"]:
@@ -659,7 +727,7 @@ def eval_in_coq(cases, name, chunk=2500):
 
 
 def run_cases(cases, tag):
-    obs = run_impl([{k: v for k, v in c.items() if k not in ("fam", "obs")} for c in cases], tag)
+    obs = run_impl([{k: v for k, v in c.items() if k not in ("fam", "obs", "oracle_only")} for c in cases], tag)
     return [dict(c, obs={"steps": o["steps"], "results": o["results"]}) for c, o in zip(cases, obs)]
 
 
@@ -740,7 +808,10 @@ def run(res, tier, seed):
     t2 = time.time()
     ev = eval_in_coq(out, "Cases_C21_%s" % tier)
     res.stage("coq_eval", t2)
-    dis, fresh_fail, orf = ev["agree"], ev["fresh"], ev["oracle"]
+    oracle_only = {i for i, c in enumerate(out) if c.get("oracle_only")}
+    dis, fresh_fail, orf = [i for i in ev["agree"] if i not in oracle_only], ev["fresh"], ev["oracle"]
+    res.cov["oracle_only_cases"] = len(oracle_only)
+    res.cov["generic_points"] = GENERIC_POINTS.get("points", [])
 
     res.cov["evaluations"] = len(out)
     res.cov["distinct_nontrivial"] = len({canon(c) for c in out if nontrivial(c)})
